@@ -312,3 +312,70 @@ Proof.
   exists 1, 0, (1/2), (Some 0, Some (-3)). split; [lra|]. split; [reflexivity|].
   rewrite bind_update_soft_half. cbn [pv fst snd]. lra.
 Qed.
+
+(* ================================================================== E. the finding in general form *)
+(* bias is handled exactly like weight (like_bias only reshapes); delay is weight with the plasticity negated *)
+Theorem homeo_bias_is_weight rk lam targets rates :
+  h_forward RN rk PBias lam targets rates = h_forward RN rk PWeight lam targets rates.
+Proof. reflexivity. Qed.
+Theorem homeo_delay_is_negated_weight rk lam targets rates :
+  h_forward RN rk PDelay lam targets rates = h_forward RN rk PWeight (- lam) targets rates.
+Proof. reflexivity. Qed.
+
+Lemma Forall2_impl' {A B} (P Q : A -> B -> Prop) la lb : (forall a b, P a b -> Q a b) -> Forall2 P la lb -> Forall2 Q la lb.
+Proof. intros H. induction 1; constructor; auto. Qed.
+Lemma rsum2_nonpos (f : R -> R -> R) la lb : Forall2 (fun a b => f a b <= 0) la lb -> rsum2 f la lb <= 0.
+Proof. induction 1 as [|a b ta tb H _ IH]; cbn [rsum2]; lra. Qed.
+Lemma rsum2_nonneg (f : R -> R -> R) la lb : Forall2 (fun a b => 0 <= f a b) la lb -> 0 <= rsum2 f la lb.
+Proof. induction 1 as [|a b ta tb H _ IH]; cbn [rsum2]; lra. Qed.
+Lemma div_INR_sign x n : (x <= 0 -> x / INR n <= 0) /\ (0 <= x -> 0 <= x / INR n).
+Proof.
+  pose proof (pos_INR n). unfold Rdiv. destruct (Req_dec (INR n) 0) as [E|E]; [rewrite E, Rinv_0; split; intros; lra|].
+  assert (0 < / INR n) by (apply Rinv_0_lt_compat; lra). split; intros; nra.
+Qed.
+(* a sample whose receptive units all fire at or above their (positive) targets has a non-positive documented term for
+   weight / bias with plasticity >= 0 *)
+Lemma doc_term_above lam tg r : 0 <= lam -> Forall2 (fun t x => 0 < t <= x) tg r -> doc_term PWeight lam tg r <= 0.
+Proof.
+  intros Hl H. unfold doc_term.
+  assert (S : rsum2 (fun t x => (t - x) / t) tg r <= 0).
+  { apply rsum2_nonpos. eapply Forall2_impl'; [|exact H]. intros t x [H1 H2]. cbv beta.
+    assert (0 < / t) by (apply Rinv_0_lt_compat; lra). unfold Rdiv. nra. }
+  pose proof (proj1 (div_INR_sign _ (length r)) S). nra.
+Qed.
+Lemma doc_term_below lam tg r : 0 <= lam -> Forall2 (fun t x => 0 <= x <= t /\ 0 < t) tg r -> 0 <= doc_term PWeight lam tg r.
+Proof.
+  intros Hl H. unfold doc_term.
+  assert (S : 0 <= rsum2 (fun t x => (t - x) / t) tg r).
+  { apply rsum2_nonneg. eapply Forall2_impl'; [|exact H]. intros t x [[H1 H2] H3]. cbv beta.
+    assert (0 < / t) by (apply Rinv_0_lt_compat; lra). unfold Rdiv. nra. }
+  pose proof (proj2 (div_INR_sign _ (length r)) S). nra.
+Qed.
+Lemma zip2_Forall {A B} (P : R -> Prop) (Q : A -> B -> Prop) (f : A -> B -> R) la lb :
+  (forall a b, Q a b -> P (f a b)) -> Forall2 Q la lb -> Forall P (zip2 f la lb).
+Proof. intros Hf. induction 1 as [|a b ta tb H _ IH]; cbn [zip2]; constructor; [apply Hf; exact H | exact IH]. Qed.
+
+(* FINDING, general form (weight and bias): for EVERY batch of rates that are all at or above their targets, every
+   plasticity >= 0 and the sum / mean reductions, the change the updater applies is MINUS the documented change: the
+   parameter is raised (or left alone) exactly when the rule says it must be lowered *)
+Theorem homeo_rates_above_target_moves_away rk lam targets rates :
+  linear_kind rk -> 0 <= lam -> Forall2 (Forall2 (fun t x => 0 < t <= x)) targets rates ->
+  let out := h_forward RN rk PWeight lam targets rates in
+  let documented := hreduce RN rk (zip2 (doc_term PWeight lam) targets rates) in
+  documented <= 0 /\ pv (fst out) = 0 /\ pv (snd out) = documented /\ pv (fst out) - pv (snd out) = - documented.
+Proof.
+  intros Hk Hl H. cbv zeta.
+  assert (Hks : Forall (fun x => x <= 0) (h_ks RN PWeight lam targets rates)).
+  { rewrite h_ks_documented. eapply zip2_Forall; [|exact H]. intros tg r Hr. apply doc_term_above; assumption. }
+  destruct (homeo_above_target_moves_away rk PWeight lam targets rates Hk Hks) as (E1 & E2 & E3).
+  rewrite <- h_ks_documented. split; [apply (proj2 (hreduce_sign rk)); exact Hks|]. repeat split; assumption.
+Qed.
+(* ... and correct when all rates are at or below target *)
+Theorem homeo_rates_below_target_ok rk lam targets rates :
+  0 <= lam -> Forall2 (Forall2 (fun t x => 0 <= x <= t /\ 0 < t)) targets rates ->
+  let out := h_forward RN rk PWeight lam targets rates in
+  pv (snd out) = 0 /\ pv (fst out) - pv (snd out) = hreduce RN rk (zip2 (doc_term PWeight lam) targets rates).
+Proof.
+  intros Hl H. cbv zeta. rewrite <- h_ks_documented. apply homeo_toward_target_when_no_term_negative.
+  rewrite h_ks_documented. eapply zip2_Forall; [|exact H]. intros tg r Hr. apply doc_term_below; assumption.
+Qed.
